@@ -258,6 +258,10 @@ func genC11(tier string, r *rng) {
 		"ext@" + hx([]byte("x-foo")) + ":" + hx([]byte("k")) + "=" + hx([]byte("v w")) + "|" + pmd + ":" + hx([]byte("server_max_window_bits")) + "=" + hx([]byte("9")),
 		"proto@" + hx([]byte("b")) + "/ext@" + pmd + ":/hdr@" + hx([]byte("Origin: http://x\r\nX-Long: "+strings.Repeat("h", 200)+"\r\n")),
 		"host@" + hx([]byte("other.example")) + "/proto@" + hx([]byte("chat")) + "|" + hx([]byte("superchat")),
+		// several extensions in one offer, parameters on the first / the middle / the last / all
+		"ext@" + hx([]byte("x-foo")) + ":" + hx([]byte("k")) + "=" + hx([]byte("v")) + "," + hx([]byte("flag")) + "=" + "|" + hx([]byte("x-bar")) + ":" + "|" + pmd + ":",
+		"ext@" + hx([]byte("x-bar")) + ":" + "|" + hx([]byte("x-foo")) + ":" + hx([]byte("k")) + "=" + hx([]byte("v")) + "|" + hx([]byte("x-baz")) + ":",
+		"ext@" + hx([]byte("x-bar")) + ":" + hx([]byte("p")) + "=" + hx([]byte("1")) + "|" + hx([]byte("x-foo")) + ":" + hx([]byte("q")) + "=" + hx([]byte("2")) + "|" + pmd + ":" + hx([]byte("client_max_window_bits")) + "=",
 	}
 	ucfgs := []string{"-",
 		"proto:" + hx([]byte("chat")),
@@ -265,6 +269,8 @@ func genC11(tier string, r *rng) {
 		"proto:" + hx([]byte("zzz")),
 		"neg:0;0;0;0", "neg:1;1;12;10", "neg:0;1;0;15",
 		"ext:" + pmd, "ext:" + hx([]byte("x-foo")),
+		"ext:" + hx([]byte("x-foo")) + "|" + hx([]byte("x-bar")) + "|" + pmd,
+		"ext:" + hx([]byte("x-baz")) + "|" + hx([]byte("x-foo")) + "|" + hx([]byte("x-bar")) + ",proto:" + hx([]byte("chat")),
 		"proto:" + hx([]byte("b")) + ",neg:1;0;9;0,hdr:" + hx([]byte("X-Server: 1\r\n")),
 		"before:h:" + hx([]byte("Set-Cookie: a=b\r\n")),
 		"onhost:403:" + hx([]byte("no")) + ":-",
